@@ -8,6 +8,8 @@ def J(pkg, harness, **params):
         if k in params:
             extra[k] = params.pop(k)
     d = dict(pkgshort=pkg, harness=harness, params=params)
+    if "call_depth" in params:
+        extra["depth"] = params.pop("call_depth")  # engine call depth budget (default 400)
     d.update(extra)
     return d
 
@@ -216,6 +218,7 @@ def c05_jobs(tier):
             for cls in (0, 1, 2, 3):
                 for edge in ((1,) if tier == "quick" else (1, 2)):
                     jobs.append(J("sml", "ZZ_C05_int", typ=typ, cls=cls, k=0, neg=neg, edge=edge, **T))
+    jobs += [J("sml", "ZZ_C05_follow", lit=i, **T) for i in range(8)]
     for typ in INT_TYPES + [1]:
         jobs.append(J("sml", "ZZ_C05_two", typ=typ, **T))
     for typ in ([1, 5, 12, 10] if tier == "quick" else INT_TYPES + [1]):
@@ -285,6 +288,10 @@ def c06_jobs(tier):
     for which in (10, 11, 12):
         for k in ((1, 2) if tier == "quick" else (1, 2, 3)):
             jobs.append(J("sml", "ZZ_C06_numbers", which=which, k=k, **T))
+    # deep nesting terminates: an exhausted instruction budget is a witness that the native replay runs under a watchdog
+    for leaf in range(4):
+        for d in ((40,) if tier == "quick" else (40, 100)):
+            jobs.append(J("sml", "ZZ_C06_deep", d=d, leaf=leaf, fuel=50_000_000, call_depth=2000))
     for which in range(10):
         for k in ([1, 3, 10] if tier == "quick" else [1, 2, 3, 5, 8, 10, 12]):
             if tier == "quick" and k == 10 and which in (3, 6, 9):
@@ -301,6 +308,12 @@ def c19_jobs(tier):
         for t2 in range(nt):
             for sep in range(ns):
                 jobs.append(J("sml", "ZZ_C19_concat", t1=t1, t2=t2, sep=sep, three=0, **T))
+    # many warnings per message; names reused inside items of every type
+    for t1, t2 in ((10, 10), (10, 1), (8, 10), (2, 10), (11, 11), (7, 11), (0, 11), (1, 11), (11, 7), (11, 0), (6, 11)):
+        for sep in (0, 2, 5):
+            jobs.append(J("sml", "ZZ_C19_concat", t1=t1, t2=t2, sep=sep, three=0, **T))
+    jobs.append(J("sml", "ZZ_C19_concat", t1=2, t2=2, t3=10, sep=1, sep2=2, three=1, **T))
+    jobs.append(J("sml", "ZZ_C19_concat", t1=7, t2=0, t3=11, sep=2, sep2=0, three=1, **T))
     # a part that begins with k arbitrary bytes (whatever is accepted at the start of a text is accepted behind another text)
     for k in ((1, 2, 3) if tier == "quick" else (1, 2, 3, 4)):
         for sep in (0, 1, 2, 5):
@@ -314,7 +327,7 @@ def c19_jobs(tier):
     return jobs
 
 
-SEQ_TOK = [20, 17, 16, 7, 14, 7, 16, 32, 29]
+SEQ_TOK = [20, 17, 16, 7, 14, 7, 16, 32, 29, 9, 8, 14]
 
 
 def c08_jobs(tier):
